@@ -176,6 +176,19 @@ class RexDriver(Check):
               'sets of 10-12 strings / 4-7 punctuation characters around the '
               'group limits (x 12 option points), and two-shape quadruples / '
               'pairs of equal frequency x variableLengthFrags off/on'),
+             ('wide', 'K same-shape examples, K in 10..13, one fragment '
+              'constant except at input position q (every q, same-class and '
+              'class-widening odd value, every counting / constant fragment '
+              'pair of 9 shapes); 4-7 punctuation characters in every '
+              'rotation; pairs of strings with 98-101 fragments; list (4 '
+              'option points), dict and pandas forms'),
+             ('history', 'E3: every sequence of 1-2 (3 for the extra-letter '
+              'points) extract() calls in ONE process over menus of 3 '
+              'example sets sharing coarse signature and group count but '
+              'differing in where the variable part sits, x extra_letters '
+              '{None . - _-.} x tag x dialect, and mixed extra-letter '
+              'settings; clauses on the last call, state rebuilt from the '
+              'pristine module state for every sequence'),
              ('refine', 'E2: sets of 4-7 from pools of one common shape that '
               'make the fragment class change between passes (a-f / non-hex '
               'letters / digits / upper / non-ASCII digit / trailing newline '
@@ -245,6 +258,14 @@ class RexDriver(Check):
         elif layer == 'refine':
             for c in self.refine_cases():
                 yield c
+        elif layer == 'wide':
+            for xs in A.wide_sets():
+                yield {'ex': xs, 'pts': 'wide', 'forms': 'lite'}
+            for xs in A.fragment_limit_sets():
+                yield {'ex': xs, 'pts': 'vlf', 'forms': 'list'}
+        elif layer == 'history':
+            for c in self.history_cases():
+                yield c
         elif layer == 't-n1-wide':
             seen = set(self.pool_q())
             for s in (A.strings_upto(A.SIGMA_T, 2)
@@ -281,6 +302,21 @@ class RexDriver(Check):
                 yield {'ex': xs, 'pts': 'dev1', 'forms': 'list'}
         else:
             raise ValueError(layer)
+
+    def history_cases(self):
+        pts = A.HISTORY_OPTION_POINTS
+        els = [o for o in pts if not o['tag'] and o['dialect'] == 'portable']
+        for (name, menu) in A.history_menus():
+            for o in pts:
+                yield {'hist': name, 'menu': menu, 'opts': [o], 'depth': 2}
+            for o in els:
+                yield {'hist': name, 'menu': menu, 'opts': [o], 'depth': 3,
+                       'only_depth': 3}
+            for i in range(len(els)):
+                for j in range(i + 1, len(els)):
+                    yield {'hist': name, 'menu': menu,
+                           'opts': [els[i], els[j]], 'depth': 2,
+                           'mixed_only': True}
 
     def refine_cases(self):
         for (name, pool, sizes, kw) in A.REFINE_POOLS:
@@ -327,6 +363,10 @@ class RexDriver(Check):
             opts = [o for o in full if A.n_deviations(o, ax) > 2]
         elif name == 'family':
             opts = [dict(o) for o in A.FAMILY_OPTION_POINTS]
+        elif name == 'wide':
+            opts = [dict(A.DEFAULT_OPTIONS, **d) for d in
+                    ({}, {'tag': True}, {'dialect': 'perl'},
+                     {'variableLengthFrags': True})]
         elif name == 'vlf':
             opts = [dict(o) for o in A.FAMILY_OPTION_POINTS
                     if A.n_deviations(o) <= 1 and A.n_deviations(
@@ -369,6 +409,9 @@ class RexDriver(Check):
         self.rx = rx
         self.pkg = rexpy_pkg
         self.tier = tier
+        # pristine module state (found by introspection, including mutable
+        # default arguments); restored before every case and every history
+        self.state = S.ModuleState(rx)
 
     def build(self, examples, form):
         if form == 'list':
@@ -418,14 +461,66 @@ class RexDriver(Check):
 
     def run_case(self, case):
         R = Res()
-        S.reset_rexpy_state()
+        self.fresh_state()
         buf = io.StringIO()
         with contextlib.redirect_stdout(buf), contextlib.redirect_stderr(buf):
             if 'size' in case:
                 self.run_sampled(R, case)
+            elif 'menu' in case:
+                self.run_history(R, case)
             else:
                 self.run_unsampled(R, case)
         return R
+
+    def fresh_state(self):
+        self.state.restore()
+        S.reset_rexpy_state()
+
+    def history_sequences(self, case):
+        """Op sequences of a history case: op = (set index, option index)."""
+        import itertools
+        ops = [(i, j) for j in range(len(case['opts']))
+               for i in range(len(case['menu']))]
+        for L in range(1, case['depth'] + 1):
+            if case.get('only_depth') and L != case['only_depth']:
+                continue
+            for seq in itertools.product(ops, repeat=L):
+                if case.get('mixed_only') and L > 1 and \
+                        len(set(j for (_, j) in seq)) < 2:
+                    continue
+                yield seq
+
+    def run_history(self, R, case):
+        """E3: every sequence is rebuilt from the pristine module state;
+        the property's clauses are checked on the LAST call (they do not
+        depend on state, so a stale cache shows as a plain violation).  A
+        last-call result that differs from the fresh-state result without
+        breaking a clause is counted as unspecified for this property (it
+        belongs to C14)."""
+        menu, optlist = case['menu'], case['opts']
+        fresh = {}
+        seen = set()
+        for seq in self.history_sequences(case):
+            self.fresh_state()
+            res = None
+            for (i, j) in seq:
+                res = self.call(menu[i], 'list', optlist[j])
+                R.ev()
+            seen.add(self.state.fingerprint())
+            (i, j) = seq[-1]
+            if len(seq) == 1:
+                fresh[(i, j)] = res
+            elif (i, j) not in fresh:
+                self.fresh_state()
+                fresh[(i, j)] = self.call(menu[i], 'list', optlist[j])
+                R.ev(1, checked=0)
+            self.judge_history(R, case, seq, menu[i], optlist[j], res,
+                               fresh[(i, j)])
+        R.states = len(seen)
+
+    def describe_history(self, case, seq):
+        return [{'examples': case['menu'][i],
+                 'options': A.opt_key(case['opts'][j])} for (i, j) in seq]
 
     # -------------------------------------------------------- diagnosis
     def cures(self, supplied, focus=None):
@@ -621,6 +716,45 @@ class C03(RexDriver):
         for (form, opts) in self.form_points(case['pts'], case['forms']):
             self.check_one(R, ex, form, opts,
                            {'form': form, 'options': A.opt_key(opts)})
+
+    # ----------------------------------------------------------- E3
+    def judge_history(self, R, case, seq, examples, opts, res, fresh):
+        (rex, _, exc) = res
+        (rex0, _, exc0) = fresh
+        R.nontrivial = True
+        sub = {'sequence': [list(x) for x in seq]}
+        detail = {'history': self.describe_history(case, seq),
+                  'fresh_state_result': rex0}
+        if exc is not None:
+            R.out('hist-raises:%s' % type(exc).__name__)
+            R.viol('%sraises:%s:opts=%s'
+                   % ('history-dependent:' if exc0 is None else '',
+                      type(exc).__name__, A.opt_key(opts)),
+                   'extract-returns',
+                   dict(detail, exception=repr(exc)[:300]), sub)
+            return
+        um = M.unmatched(rex, examples)
+        if um:
+            R.out('hist%d:V' % len(seq))
+            ok_fresh = exc0 is None and not M.unmatched(rex0, examples)
+            if ok_fresh:
+                sig = 'history-dependent:unmatched:opts=%s' % A.opt_key(opts)
+            else:
+                def fails(s2, o2):
+                    self.fresh_state()
+                    r2, e2, u2 = self.failing(s2, 'list', o2)
+                    R.ev(1, checked=0)
+                    return e2 is not None or bool(u2)
+                sig = self.diagnose(examples, opts, fails, um)
+                if sig.startswith('opts='):
+                    sig = 'unmatched:' + sig
+            R.viol(sig, 'every-kept-example-matched',
+                   dict(detail, returned=rex, unmatched=um), sub)
+        elif exc0 is None and rex != rex0:
+            R.unspec += 1
+            R.out('hist%d:differs-from-fresh' % len(seq))
+        else:
+            R.out('hist%d:%d/%d' % (len(seq), len(rex), len(examples)))
 
     # ----------------------------------------------------------- E2
     def run_sampled(self, R, case):
